@@ -272,7 +272,7 @@ class Machine:
                     return why, dict(kind="decode", tok_kind=tok.kind)
                 if al is not None:
                     per_lin.setdefault(al[0], []).append((al[1], al[2]))
-                if tok.lineage is not None and not tok.nullable and tok.kind in ("int", "str") and tokid not in m.opaque:
+                if tok.lineage is not None and not tok.nullable and tok.kind in ("int", "str", "const") and tokid not in m.opaque:
                     nulls.setdefault(tok.lineage, []).append(val is None)
             for lin, lst in per_lin.items():
                 exact = {r for r, mod in lst if mod is None}
